@@ -423,7 +423,7 @@ fn replay_capseq(tape: &[u32]) -> Vec<String> {
 // ---------------------------------------------------------------------------------------------
 /// One round: `askers` threads / tasks issue one ask each at (almost) the moment the actor ends by
 /// `cause`; every one of them must return (Ok or Err) - none may wait forever. Returns the number
-/// of askers that had not returned 3 s after the actor's JoinHandle resolved.
+/// of askers that had not returned 10 s after the actor's JoinHandle resolved.
 pub fn ask_end_race_round(rt: &tokio::runtime::Runtime, cap: usize, askers: usize, cause: u8, blocking: bool, jitter: u32, stream: u32) -> (usize, usize) {
     use crate::actor::{MsgA, SimActor, World};
     use crate::scenario::*;
@@ -498,7 +498,7 @@ pub fn ask_end_race_round(rt: &tokio::runtime::Runtime, cap: usize, askers: usiz
     drop(r);
     let joined = rt.block_on(async { tokio::time::timeout(Duration::from_secs(10), jh).await.is_ok() });
     let mut returned = 0;
-    let deadline = std::time::Instant::now() + Duration::from_secs(3);
+    let deadline = std::time::Instant::now() + Duration::from_secs(10);
     while returned < askers {
         let left = deadline.saturating_duration_since(std::time::Instant::now());
         match rx.recv_timeout(left) {
@@ -561,7 +561,7 @@ pub fn c03_race(prop: &'static str, seed: u64, rounds: u32, replay_out: &str, pa
                     }
                     if hung > 0 {
                         let cause_s = ["handler panic", "stop()", "kill()", "drop of the last reference"][cause as usize % 4];
-                        let detail = format!("{hung} of {askers} {} ask(s) issued while the actor (capacity {cap}) was ending by {cause_s} had not returned 3 s after its JoinHandle resolved", if blocking { "blocking_ask" } else { "async" });
+                        let detail = format!("{hung} of {askers} {} ask(s) issued while the actor (capacity {cap}) was ending by {cause_s} had not returned 10 s after its JoinHandle resolved", if blocking { "blocking_ask" } else { "async" });
                         if g.1.is_none() {
                             g.1 = Some(Hit { detail, payload: serde_json::json!({"ask_end_race": {"cap": cap, "askers": askers, "cause": cause, "blocking": blocking, "stream": stream}}) });
                         }
